@@ -348,8 +348,12 @@ def run(ctx):
     adv = fb.find(LEX + "advance")
     for f in fb.all("lib"):
         for b, t in f.calls():
-            if callee_matches(t, "<std::iter::Peekable as std::iter::Iterator>::next", "Peekable::next_if", "Peekable::next_if_eq") \
-                    and "char" in " ".join(t.get("argtys", [])) + f.local_ty(t["dest"]["local"]):
+            direct = callee_matches(t, "<std::iter::Peekable as std::iter::Iterator>::next", "Peekable::next_if", "Peekable::next_if_eq") \
+                and "char" in " ".join(t.get("argtys", [])) + f.local_ty(t["dest"]["local"])
+            # ... or any other iterator method applied straight to the character stream (find, position, nth, any, all, for_each, fold ...)
+            through = (callee(t) or "").startswith("std::iter::Iterator::") and (t.get("argtys") or [""])[0].replace("&mut ", "").replace("&", "").strip().startswith("std::iter::Peekable<") \
+                and (callee(t) or "").rsplit("::", 1)[-1] in ("find", "position", "nth", "any", "all", "for_each", "fold", "try_fold", "count", "last", "find_map", "try_for_each", "skip_while", "take_while", "map_while", "by_ref", "collect")
+            if direct or through:
                 owner = f.name
                 ctx.inst("C06-position", "consumer/" + owner)
                 callers_ = fb.callers("lib")
